@@ -3,15 +3,14 @@
 // of the current tree.
 //
 //   (num.<op> z ...)            => decimal | 0/1 | err
-//   (num.q_<op> (q n d) ...)    => (q n d) | decimal | lt/eq/gt | err      raw numerator/denominator
+//   (num.q_<op> (q n d) ...)    => (q n d) | decimal | lt/eq/gt | err      raw numerator/denominator;
+//                                  every operand is built with q_number(z_number n, z_number d)
+//                                  (any sign of d, common factors, d = 0: expect err)
 //   (safe.<op> a b)             => decimal | 0/1 | err
 //
-// Never generated, and answered `trap` without running the code when replayed (they stop the
-// process without a CRAB_ERROR): zero denominators in operations that canonicalise; non-positive
-// denominators of *this in the q_number operations that copy it with mpq_set or size a buffer
-// from it (+ - * / unary- << get_str: GMP reads/writes out of bounds, observed SIGSEGV and heap
-// corruption); safe_i64 division by 0 (SIGFPE).  Never generated: fill_ones of a negative
-// number (assert), left shifts by an amount whose low 64 bits are large (memory).
+// Never generated, and answered `trap` without running the code when replayed: safe_i64 division
+// by 0 (SIGFPE, not a CRAB_ERROR).  Never generated: fill_ones of a negative number (assert),
+// left shifts by an amount whose low 64 bits are large (memory).
 #include "common.hpp"
 #include <crab/numbers/safeint.hpp>
 #include <cinttypes>
@@ -32,10 +31,6 @@ static std::string eval_q(const std::string &op, const Sx &q) {
   if (op == "q_ofz") return qs(q_number(z_number(q[1].a)));
   q_number a = parse_q(q[1]);
   if (op == "q_mk") return qs(a);
-  // operations that copy *this with mpq_set: not executed on a non-positive denominator
-  bool copies = op == "q_neg" || op == "q_str" || op == "q_add" || op == "q_sub" || op == "q_mul" || op == "q_div" || op == "q_shl";
-  if (copies && a.denominator() <= z_number(0)) return "trap";
-  if (op != "q_mk" && op != "q_rlo" && op != "q_rup" && op != "q_str" && op != "q_shl" && a.denominator() == z_number(0)) return "trap";
   if (op == "q_neg") return qs(-a);
   if (op == "q_incr") { q_number r(a); ++r; return qs(r); }
   if (op == "q_decr") { q_number r(a); --r; return qs(r); }
@@ -43,8 +38,6 @@ static std::string eval_q(const std::string &op, const Sx &q) {
   if (op == "q_rup") return zs(a.round_to_upper());
   if (op == "q_str") return a.get_str();
   q_number b = parse_q(q[2]);
-  if (op != "q_shl" && b.denominator() == z_number(0)) return "trap";
-  if (op == "q_cmp" && (a.denominator() <= z_number(0) || b.denominator() <= z_number(0))) return "trap";
   if (op == "q_add") return qs(a + b);
   if (op == "q_sub") return qs(a - b);
   if (op == "q_mul") return qs(a * b);
@@ -208,7 +201,7 @@ static z_number gen_shift(Rng &r, bool left) {
 }
 
 static std::string gen_q_text(Rng &r, int mode) {
-  // mode 0: canonical-looking (den > 0), 1: den any sign non-zero, 2: den may be 0
+  // mode 0: den > 0 (common factors allowed), 1: den of any sign, non-zero, 2: den >= 0, zero in a share
   bool small = r.coin(3, 4);
   z_number n = small ? gen_small_z(r, 40) : gen_zz(r);
   z_number d = small ? gen_small_z(r, 12) : gen_zz(r);
@@ -265,17 +258,13 @@ static std::string gen_safe(Rng &r) {
 
 static std::string gen_qline(Rng &r) {
   unsigned k = r.below(12);
-  // rounding: zero denominators in a share (expect err), negative denominators (non-canonical
-  // pairs kept by q_number(num, den)) in a small share
-  if (k <= 2) return "(num." + std::string(r.coin() ? "q_rlo" : "q_rup") + " " + gen_q_text(r, k == 2 ? 2 : (r.below(25) == 0 ? 1 : 0)) + ")";
+  // rounding: zero denominators in a share (expect err), negative denominators in a third
+  if (k <= 2) return "(num." + std::string(r.coin() ? "q_rlo" : "q_rup") + " " + gen_q_text(r, k == 2 ? 2 : (r.below(3) == 0 ? 1 : 0)) + ")";
   if (k == 3) return "(num.q_ofz " + zs(gen_zz(r)) + ")";
-  if (k == 4) {
-    std::string op = r.pick(QUN);
-    // unary minus copies *this with mpq_set, get_str sizes its buffer from the signed size of
-    // the denominator: positive denominator only
-    return "(num." + op + " " + gen_q_text(r, (op != "q_neg" && op != "q_str" && r.below(4) == 0) ? 1 : 0) + ")";
-  }
-  if (k == 5) return "(num.q_cmp " + gen_q_text(r, 0) + " " + gen_q_text(r, 0) + ")";
+  // operand shape of the remaining operations: any sign of the denominator, zero now and then
+  auto qarg = [&]() { unsigned m = r.below(12); return gen_q_text(r, m == 0 ? 2 : (m < 5 ? 1 : 0)); };
+  if (k == 4) return "(num." + r.pick(QUN) + " " + qarg() + ")";
+  if (k == 5) return "(num.q_cmp " + qarg() + " " + qarg() + ")";
   if (k == 6) {
     // shift amount: integral mostly, sometimes not, sometimes zero denominator
     std::string amount;
@@ -285,15 +274,12 @@ static std::string gen_qline(Rng &r) {
     else if (m == 1) { int64_t d = r.range(1, 5); amount = "(q " + i64s(s * d) + " " + i64s(d) + ")"; }
     else if (m == 2) { int64_t d = r.range(1, 5); amount = "(q " + i64s(-s * d) + " " + i64s(-d) + ")"; }
     else amount = "(q " + i64s(s) + " 1)";
-    return "(num.q_shl " + gen_q_text(r, 0) + " " + amount + ")"; // this: positive denominator only (GMP reads out of bounds otherwise)
+    return "(num.q_shl " + qarg() + " " + amount + ")";
   }
   std::string op = r.pick(QBIN);
-  std::string b = gen_q_text(r, r.below(4) == 0 ? 1 : 0);
+  std::string b = qarg();
   if ((op == "q_div" || op == "q_diva") && r.below(6) == 0) b = "(q 0 " + zs(gen_nonzero(r, true)) + ")";
-  // the const operators copy *this with mpq_set (positive denominator only); the compound
-  // assignments canonicalise in place
-  bool assign = op.back() == 'a';
-  return "(num." + op + " " + gen_q_text(r, (assign && r.below(4) == 0) ? 1 : 0) + " " + b + ")";
+  return "(num." + op + " " + qarg() + " " + b + ")";
 }
 
 static std::string gen(Rng &r, const Args &) {
